@@ -88,6 +88,11 @@ impl Next<f64> for EfficiencyRatio {
             previous = *n;
         }
 
+        if volatility == 0.0 {
+            // No movement at all inside the window: there is no trend to be efficient about.
+            return 0.0;
+        }
+
         (first - input).abs() / volatility
     }
 }
